@@ -662,7 +662,7 @@ func main() {
 			os.RemoveAll(filepath.Dir(tmp))
 		}
 	}
-	veryLargeBlob(r)
+	guarded(r, "very large blob", func() { veryLargeBlob(r) })
 	for _, api := range []string{"verifier.Verify", "notation.Verify", "verifier.VerifyBlob", "notation.VerifyBlob"} {
 		for _, f := range lib.Formats {
 			r.RequireAtLeast("accepted:"+api+":"+f, 10)
@@ -750,4 +750,14 @@ func veryLargeBlob(r *lib.Run) {
 			}
 		}
 	}
+}
+
+// guarded runs a phase; a panic of the library inside it is a violation like any other, not the end of the monitor.
+func guarded(r *lib.Run, where string, f func()) {
+	defer func() {
+		if p := recover(); p != nil {
+			r.Violation(map[string]string{"kind": "panic", "where": where}, fmt.Sprintf("%s: the library panicked: %v", where, p), nil)
+		}
+	}()
+	f()
 }
